@@ -46,7 +46,9 @@ def limbs_to_i64(l):
     return u - (1 << 64) if u >= (1 << 63) else u
 
 
-def args_tokens(at, av):
+def args_tokens(at, av, unterm=None):
+    """unterm = p: the (single) narrow string argument is passed as its first p bytes without a terminator, the byte behind them
+    inaccessible - what a %.ps directive may read"""
     t = tabs()
     out = []
     for i, ty in enumerate(at):
@@ -58,7 +60,10 @@ def args_tokens(at, av):
                 out.append("s -1")
             else:
                 s = t["strs"][v[0] - 1]
-                out.append("s %d %s" % (len(s), " ".join(map(str, s))))
+                if unterm is not None:
+                    out.append("u %d %s" % (unterm, " ".join(map(str, s[:unterm]))))
+                else:
+                    out.append("s %d %s" % (len(s), " ".join(map(str, s))))
         elif ty == 3:
             out.append("d %s" % t["dbl"][v[0] - 1])
         elif ty == 4:
@@ -77,7 +82,7 @@ def case_line(cid, fn, c):
     """c: dict(fmt, at, av, loc, dmax, dnull, fnull, inp)"""
     fmt = c["fmt"]
     inp = c.get("inp", [])
-    toks = args_tokens(c["at"], c["av"])
+    toks = args_tokens(c["at"], c["av"], c.get("unterm"))
     return "%d %s %d %d %d %d %d %s %d %s %d %s" % (
         cid, fn, c["dmax"], c.get("dnull", 0), c.get("fnull", 0), c.get("loc", 0), len(fmt), " ".join(map(str, fmt)),
         len(inp), " ".join(map(str, inp)), len(toks), " ".join(toks))
@@ -202,6 +207,26 @@ def _violations(prop, bad, res):
                                    replay=dict(kind="printf", fn=b["fn"], case=b["case"], flavour=b["flavour"], observed=b["event"], props=b["props"])))
 
 
+def unterminated_variants(cases):
+    """%.Ns with an explicit precision N <= the argument's length: the same call with the argument cut to its first N bytes, no
+    terminator, in front of an inaccessible page (C02: "a %.Ns argument is read for at most N bytes"); the expected text is unchanged"""
+    t = tabs()
+    out = []
+    for c in cases:
+        if c.get("cv") != 115 or c.get("ln") not in ("", None) or not isinstance(c.get("p"), int) or c["p"] < 0:
+            continue
+        strs = [i for i, ty in enumerate(c["at"]) if ty == 2]
+        if len(strs) != 1 or c["av"][4 * strs[0]] == t["nullstr"]:
+            continue
+        s = t["strs"][c["av"][4 * strs[0]] - 1]
+        if len(s) < c["p"]:
+            continue
+        v = dict(c)
+        v["unterm"] = c["p"]
+        out.append(v)
+    return out
+
+
 def _argviol_cases():
     """dest/fmt NULL, dmax 0 / HUGE for the buffer functions (C05: reported once, nothing touched)"""
     base = dict(fmt=[97, 37, 100], at=[1], av=[5, 0, 0, 0], loc=0, cv=100, ln="")
@@ -305,6 +330,11 @@ def run_props(prop, tier, seed, workdir, res):
     for c in _argviol_cases():
         for fn in NARROW_BUF + WIDE_BUF:
             jobs.append((fn, c))
+    uv = unterminated_variants(cases)
+    for i, c in enumerate(uv):
+        jobs.append((NARROW_BUF[i % len(NARROW_BUF)], c))
+        jobs.append((["fprintf_s", "printf_s", "vfprintf_s", "vprintf_s"][i % 4], c))
+    res.coverage["printf_unterminated_string_arguments"] = len(uv)
     n, bad, st = execute_and_judge(jobs, workdir)
     _violations(prop, bad, res)
     res.coverage["states"] = res.coverage.get("states", 0) + r["distinct"]
